@@ -43,3 +43,37 @@ def audit_date_tables(slice_, timeout):
 def audit_date_tables__replay(slice_, cex):
     r = audit_date_tables(slice_, 0)
     return {'reproduced': r['state'] == 'counterexample', 'detail': r['detail']}
+
+
+def audit_negative_terms(slice_, timeout):
+    """premise of the sweep stub: search(negative_terms, source[:start]) can only match at the very end of the prefix"""
+    import importlib
+    bad = []
+    n = 0
+    for lang in ('english', 'spanish', 'french', 'portuguese', 'german', 'italian', 'dutch', 'chinese', 'japanese'):
+        try:
+            m = importlib.import_module('recognizers_number.number.%s.extractors' % lang)
+        except ImportError:
+            continue
+        env.assert_repo(m)
+        for name in dir(m):
+            cls = getattr(m, name)
+            if isinstance(cls, type) and name.endswith('NumberExtractor') and name.lower().startswith(lang[:4]):
+                try:
+                    ex = cls()
+                except Exception:  # noqa
+                    continue
+                p = getattr(ex, '_negative_number_terms', None)
+                if p is None:
+                    continue
+                n += 1
+                if not p.pattern.endswith('$'):
+                    bad.append((name, p.pattern))
+    if bad:
+        return {'state': 'counterexample', 'cex': {'bad': bad[:3]}, 'detail': 'negative-term pattern not anchored at the end: %r' % bad[:3], 'queries': n}
+    return {'state': 'discharged', 'detail': '%d extractors checked' % n, 'queries': n, 'sample': {'extractors': n}}
+
+
+def audit_negative_terms__replay(slice_, cex):
+    r = audit_negative_terms(slice_, 0)
+    return {'reproduced': r['state'] == 'counterexample', 'detail': r['detail']}
